@@ -245,6 +245,17 @@ def pieces(cfg, seg):
     return L, out
 
 
+def _axis_iz(cfg, seg, pcs):
+    """z-indices of the points where the path meets the axis (marker pieces)"""
+    out = []
+    for t0, t1, c in pcs:
+        if c is None:
+            L, u = _unit(seg)
+            iz = int(math.floor((seg[2] + u[2] * t0) / cfg['steps'][2]))
+            out.append(min(max(iz, 0), cfg['shape'][2] - 1))
+    return out
+
+
 def vmap_of(cfg):
     return np.asarray(material(cfg).voxel_map)
 
@@ -287,6 +298,11 @@ def check_oracle(ctx, cfg, step, ms, seg, spec0, entries, desc, L=None, pcs=None
                 runs[s] += 1
         prev_src = s
     on_axis = any(p[2] is None for p in pcs)     # a sample may sit exactly on the axis, whose sector is arbitrary (atan2(0,0))
+    for iz in _axis_iz(cfg, seg, pcs):
+        # the isolated point on the axis is a (degenerate) interval of every sector cell of ring 0 at that height
+        for s_ in set(int(v) for v in vm[0, :, iz]):
+            if s_ >= 0:
+                runs[s_] += 1
     pcs = [p for p in pcs if p[2] is not None]
     ok = True
     for j in range(nb):
@@ -381,6 +397,10 @@ def check_literal(ctx, cfg, step, ms, seg, L, pcs, cells, desc, slack=0.0):
         if prev != c:
             runs[c] = runs.get(c, 0) + 1
         prev = c
+    for iz in _axis_iz(cfg, seg, pcs):
+        for jp in range(sh[1]):
+            chord.setdefault((0, jp, iz), 0.0)
+            runs[(0, jp, iz)] = runs.get((0, jp, iz), 0) + 1
     tiny = 1e-12 * max(L, 1.0) + slack
     for c, ch in chord.items():
         e = cells[(c[0] * sh[1] + c[1]) * sh[2] + c[2]]
